@@ -54,6 +54,64 @@ def _allowed(ctx: Ctx, s, intercept, fl, avail, kind, exc, stream):
             ctx.fail(f"multi-stage formula accepted with MULTISTAGE disabled: {s!r}", rp)
 
 
+def _lifecycle(ctx: Ctx, rng):
+    """a parser object keeps rejecting what its CURRENT feature flags disable: after re-configuration, copying and pickling"""
+    import copy
+    import pickle
+    from formulaic.parser import DefaultFormulaParser
+    from formulaic.errors import FormulaParsingError
+    names = ["twosided", "multipart", "multistage"]
+    probes = [("y ~ x", 0), ("x | z", 1), ("y ~ x | z", 0), ("y ~ x | z", 1), ("[y ~ x] ~ z", 2), ("a + b", None), ("~ x", None)]
+    for i in range(ctx.n(150, 2000)):
+        first = {n for n in names if rng.random() < 0.6}
+        final = {n for n in names if rng.random() < 0.5}
+        p = DefaultFormulaParser(feature_flags=set(first), include_intercept=rng.random() < 0.7)
+        steps = ["new(%s)" % sorted(first)]
+        if rng.random() < 0.7:                       # use it, so that caches are filled
+            try:
+                p.get_terms(rng.choice(["a + b", "y ~ x", "x | z"]))
+            except FormulaParsingError:
+                pass
+            steps.append("use")
+        if rng.random() < 0.7:
+            p.set_feature_flags(set(final))
+            steps.append("set_feature_flags(%s)" % sorted(final))
+        else:
+            final = first
+        how = rng.choice(["none", "pickle", "deepcopy", "copy"])
+        if how == "pickle":
+            p = pickle.loads(pickle.dumps(p))
+        elif how == "deepcopy":
+            p = copy.deepcopy(p)
+        elif how == "copy":
+            p = copy.copy(p)
+        steps.append(how)
+        fresh = DefaultFormulaParser(feature_flags=set(final), include_intercept=p.include_intercept)
+        for s, needs in probes:
+            ctx.oracle_runs += 1
+            rp = {"kind": "lifecycle", "steps": steps, "formula": s}
+
+            def outcome(q):
+                try:
+                    return "ok", repr(q.get_terms(s))
+                except FormulaParsingError:
+                    return "reject", None
+                except NotImplementedError:
+                    return "internal:NotImplementedError", None
+                except Exception as e:
+                    return "internal:" + type(e).__name__, None
+            got, want = outcome(p), outcome(fresh)
+            if got[0].startswith("internal"):
+                tags = ["C14-multistage-nested-lhs"] if got[0] == "internal:NotImplementedError" else []
+                ctx.fail(f"{got[0].split(':')[1]} escaped from parsing {s!r} after {steps}", rp, tags)
+                continue
+            if needs is not None and names[needs] not in final and got[0] == "ok":
+                ctx.fail(f"{s!r} was accepted although {names[needs].upper()} is disabled (parser history: {steps})", rp)
+            elif got != want:
+                ctx.fail(f"{s!r}: a parser with history {steps} gives {got}, a fresh parser with flags {sorted(final)} gives {want}", rp)
+        ctx.count("lifecycle", how)
+
+
 def _run_stream(ctx: Ctx, stream, inputs):
     lits, descr, strings = [], [], []
     for s, intercept, fl, avail in inputs:
@@ -99,6 +157,8 @@ def run(ctx: Ctx, only=None):
             "b", "(a)", "()", "", "2 2", "2**2", "2^0", "0**2", "2 + 1", "(2+1)", "`2`"]
     inputs = [(b + o + e, rng.random() < 0.8, (True, True, False), None) for b in bases for o in pops for e in exps]
     _run_stream(ctx, "powers", inputs)
+    # 3c. parser objects with a history (re-configured, copied, pickled)
+    _lifecycle(ctx, rng)
     # 4. multistage enabled: implementation-side oracle only (the model does not cover nested results)
     for _ in range(ctx.n(200, 3000)):
         s, _ = G.gen_formula(rng, depth=2, mutate=0.3)
